@@ -375,6 +375,13 @@ fn threads<W: Write>(out: &mut W, hi: usize, hist: &Value, out_path: &str) {
     let mut cf = cfb::OpenOptions::new().max_buffer_size(1 << 20).open_with(build_file(ver).into_inner()).unwrap();
     let mut h1 = cf.open_stream("/a/s1").unwrap();
     let mut h2 = cf.open_stream("/a/s2").unwrap();
+    // spare handles on the other streams: each is written to (buffered) and then DROPPED without a flush while the readers
+    // run - the drop is the operation that writes the data back, and it must not depend on what other threads do
+    let mut spares: Vec<(&str, u64, cfb::Stream<SharedBuf>)> = Vec::new();
+    for (n, l) in [("/k", 10u64), ("/m", 4096), ("/z", 200), ("/a/b/t", 70)] {
+        let h = cf.open_stream(n).unwrap();
+        spares.push((n, l, h));
+    }
     let cf = cf; // shared immutably from here on
     CLOCK.store(0, Ordering::SeqCst);
     let events: Mutex<Vec<(u64, Value)>> = Mutex::new(Vec::new());
@@ -474,6 +481,12 @@ fn threads<W: Write>(out: &mut W, hi: usize, hist: &Value, out_path: &str) {
                         last = now;
                         since = Instant::now();
                     } else if since.elapsed() > Duration::from_millis(stall_ms) {
+                        // (a process that was not scheduled at all for that long would look the same at this moment:
+                        // give the other threads a chance to run, and look again)
+                        std::thread::sleep(Duration::from_millis(400));
+                        if CLOCK.load(Ordering::SeqCst) != last {
+                            continue;
+                        }
                         // no thread has started or finished a call for stall_ms: dump and leave
                         stalled.store(true, Ordering::SeqCst);
                         let mut f = std::fs::OpenOptions::new().append(true).create(true).open(&out_path).unwrap();
@@ -488,7 +501,30 @@ fn threads<W: Write>(out: &mut W, hi: usize, hist: &Value, out_path: &str) {
         let mut rng = Rng(seed.wrapping_mul(7919));
         let mut lens = [100u64, 5000u64];
         let mut local: Vec<(u64, Value)> = Vec::new();
-        for _ in 0..nops {
+        for opi in 0..nops {
+            if !spares.is_empty() && opi % (nops / 5).max(1) == (nops / 5).max(1) - 1 {
+                let (name, len0, mut sp) = spares.pop().unwrap();
+                let k = [10u64, 600, 5000][rng.below(3) as usize];
+                let a = stamp();
+                let r = catch_unwind(AssertUnwindSafe(move || -> std::io::Result<()> {
+                    sp.seek(SeekFrom::End(0))?;
+                    sp.write_all(&vec![0x44u8; k as usize])?;
+                    drop(sp);
+                    Ok(())
+                }));
+                let b = stamp();
+                let res = match &r {
+                    Ok(Ok(())) => "ok",
+                    Ok(Err(_)) => "err",
+                    Err(_) => "panic",
+                };
+                local.push((a, json!({"ev": "h_start", "t": main_tid, "name": name, "to": len0 + k, "what": "append_drop"})));
+                local.push((b, json!({"ev": "h_end", "t": main_tid, "name": name, "res": res, "len": len0 + k})));
+                if res != "ok" {
+                    break;
+                }
+                continue;
+            }
             let which = rng.below(2) as usize;
             let (name, s) = if which == 0 { ("/a/s1", &mut h1) } else { ("/a/s2", &mut h2) };
             let mut kind = rng.below(11);
@@ -576,6 +612,7 @@ fn threads<W: Write>(out: &mut W, hi: usize, hist: &Value, out_path: &str) {
     }
     drop(h1);
     drop(h2);
+    drop(spares);
 }
 
 fn main() {
